@@ -197,7 +197,12 @@ impl<'c, 's> Run<'c, 's> {
         let call = Call::Req { kind, dest, a, uuid, entries };
         let mut f = match self.encode(ni, &call) {
             Some(f) => f,
-            None => return,
+            None => {
+                if let Some((w, _)) = walk {
+                    self.walks[w].abandoned = true;
+                }
+                return;
+            }
         };
         // A9: forge the instance ID (the request encoders always emit 0)
         let mut iid = 0u8;
@@ -576,6 +581,11 @@ impl<'c, 's> Run<'c, 's> {
                 }
                 body.extend_from_slice(&data);
                 fg.body = body;
+                if self.ch.choose(4) == 3 {
+                    // other implementations address an endpoint by the EID it was assigned
+                    fg.dest_eid = self.nodes[ni].ctx.get_response().get_eid();
+                    self.st.probe("forged-request-addressed-by-assigned-eid");
+                }
             }
             1 => {
                 // control response
@@ -714,6 +724,23 @@ impl<'c, 's> Run<'c, 's> {
     }
 
     fn op_garbage(&mut self, ni: usize) {
+        if self.prof.prop == Prop::C17 && self.ch.choose(6) == 5 {
+            // a driver that hands the probe its whole (huge) DMA ring: lengths around 2^16
+            let l = [65535usize, 65536, 65537, 65538, 66000, 4096][self.ch.choose(6) as usize];
+            let mut big = vec![0u8; l];
+            let sd = 1 + self.ch.choose(1 << 16);
+            fill(sd, &mut big[..64]);
+            if self.ch.choose(4) != 0 {
+                big[1] = 0x0F;
+            }
+            let r = crate::real::get_length(&self.nodes[ni].ctx, &big);
+            let _ = crate::real::get_length(&self.nodes[ni].twin, &big);
+            self.st.lib_calls += 2;
+            self.st.probe("probe-on-64KiB-buffer");
+            self.ev("probe.giant", &[ni as u64, l as u64], &big[..8]);
+            self.probe_oracles(ni, &big, r, None);
+            return;
+        }
         let bytes = match self.ch.choose(4) {
             0 => {
                 let l = self.ch.size(259) as usize;
@@ -939,6 +966,12 @@ impl<'c, 's> Run<'c, 's> {
                 trap(|| call.invoke(ctx, &mut b2[..]))
             };
             self.st.lib_calls += 1;
+            {
+                // keep the twin's call history identical
+                let mut b3 = vec![p2; need.max(len) + extra2];
+                let tw = &self.nodes[ni].twin;
+                let _ = trap(|| call.invoke(tw, &mut b3[..]));
+            }
             self.eval(Prop::C16, "C16/independent-of-buffer");
             match r2 {
                 Ok(Ok(l2)) if l2 == len && b2[..l2.min(b2.len())] == bytes[..] => {}
